@@ -22,7 +22,7 @@ CONSTRAINT Emit
 CHECK_DEADLOCK FALSE
 """
 
-ALL_BASES = ("b1", "b2", "b3", "b4", "b5", "b6")
+ALL_BASES = ("b1", "b2", "b3", "b4", "b5", "b6", "b7")
 
 OE_CFG = """SPECIFICATION Spec
 CONSTANT BaseIds = {"o1", "o2", "o3", "o4", "o5", "o6"}
